@@ -43,6 +43,10 @@ def main():
     for i, (name, fn) in enumerate(jobs):
         try:
             text = fn()
+            # the generated files must not depend on WHERE the repository under test lives (only on what it
+            # says): an identical source then gives byte-identical files and nothing is rebuilt
+            head, sep, rest = text.partition('\n')
+            text = head.replace(os.path.realpath(repo), '$VERIF_REPO').replace(repo, '$VERIF_REPO') + sep + rest
             ch = write_if_changed(os.path.join(out, name), text)
             print('regen: Gen/%s %s' % (name, 'rewritten' if ch else 'unchanged'))
         except Exception:
